@@ -80,11 +80,15 @@ MS_POLS = [(1, 0), (0, 1), (0.6, -0.8), (1, 0), (0, 1), (0.6, -0.8), (1, 1),
            (0, 1)]
 # (2.5 / 1.33, 10.055): a high-index sphere sitting on a narrow resonance of
 # a partial wave well above its size parameter (the terms before it are tiny)
-MS_ONE = {"quick": [(1.2, 3.0), (1.2 + 0.01j, 1.0), (2.5 / 1.33, 10.055)],
+# (1.0001, 5.0): a nearly index-matched sphere (the relative index has to
+# be kept to more than single precision)
+MS_ONE = {"quick": [(1.2, 3.0), (1.2 + 0.01j, 1.0), (2.5 / 1.33, 10.055),
+                    (1.0001, 5.0)],
           "thorough": [(1.2, 3.0), (1.2 + 0.01j, 1.0), (1.5, 0.5), (2.0, 5.0),
                        (0.75, 3.0), (1.5 + 0.5j, 2.0), (1.2, 8.0),
                        (1.05, 10.0), (2.5 / 1.33, 10.055),
-                       (2.5 / 1.33, 10.04), (2.0, 12.0)]}
+                       (2.5 / 1.33, 10.04), (2.0, 12.0), (1.0001, 5.0),
+                       (1.00001, 0.5), (0.9999, 2.0)]}
 MS_TWO = {"quick": [],
           "thorough": [((1.59, 0.3, (0, 0, 0)), (1.45, 0.4, (1.0, 0.2, 0.5))),
                        ((1.59 + 0.02j, 0.25, (0, 0, 0)),
